@@ -247,9 +247,11 @@ class G09:
     @staticmethod
     def read_archive_ltril(lines):
         """independent reader: join the archive, take the field after NImag=..\\\\"""
-        j = max(k for k, l in enumerate(lines) if "NImag" in l or "NIm" in l and False or "NImag" in l)
-        txt = "".join(l[1:].rstrip("\n") for l in lines[j - 3:])
-        txt = txt[txt.index("NImag"):]
+        # the archive entry is wrapped at 70 characters, so "NImag" itself may be split over two
+        # lines: join from the start of the last archive entry before searching
+        j = max(k for k, l in enumerate(lines) if l.startswith(" 1\\1\\"))
+        txt = "".join(l[1:].rstrip("\n") for l in lines[j:])
+        txt = txt[txt.rindex("NImag"):]
         field = txt.split("\\\\")[1]
         return [float(v) for v in field.split(",")]
 
